@@ -1,4 +1,5 @@
 import Cppcheck.Model.FileLister
+import Cppcheck.Proofs.PathMatch
 /-
 C31 — helper lemmas for the file lister: the recursion of `addFiles2` with its early cut-offs collects exactly the
 accepted files no ignore pattern cuts off; the order of `std::string::operator<`; every file is listed once.
@@ -349,5 +350,124 @@ theorem nodup_allFilesL (path : Str) (chain : List Str) : ∀ (ts : List Tree), 
       obtain ⟨r, er, hr⟩ := allFiles_path (childPath path name) chain (.dir name ch) f hf
       exact hdisj g hg r hr (by rw [eg, ← e, ← ef, er]; rfl)
 end
+
+/-! ### the command line: normalised `-i` values and the rule on the text the user wrote -/
+
+def sepMap (c : Char) : Char := if c == '\\' then '/' else c
+
+theorem fromNative_eq (q : Str) : fromNativeSeparators q = q.map sepMap := rfl
+
+theorem sepMap_dot (c : Char) : (sepMap c == '.') = (c == '.') := by
+  unfold sepMap
+  by_cases h : c = '\\'
+  · subst h; decide
+  · simp [h]
+
+theorem sepMap_slash (c : Char) : (sepMap c == '/') = isSepU c := by
+  unfold sepMap isSepU
+  by_cases h : c = '\\'
+  · subst h; decide
+  · simp [h]
+
+theorem sepMap_bslash (c : Char) : (sepMap c == '\\') = false := by
+  unfold sepMap
+  by_cases h : c = '\\'
+  · subst h; decide
+  · simp [h]
+
+theorem isAbsolute_fromNative (q : Str) : isAbsolute (fromNativeSeparators q) = absoluteU q := by
+  cases q with
+  | nil => rfl
+  | cons c r =>
+    simp only [fromNative_eq, isAbsolute, absoluteU, List.map_cons, List.head?_cons, cat, List.getD_cons_zero]
+    have := sepMap_slash c
+    by_cases h : sepMap c = '/'
+    · simp [h] at this ⊢; exact this
+    · have h' : (sepMap c == '/') = false := by simp [h]
+      rw [h'] at this
+      simp [h, ← this]
+
+
+theorem isEmpty_fromNative (q : Str) : (fromNativeSeparators q).isEmpty = q.isEmpty := by
+  cases q <;> rfl
+
+theorem dirPattern_fromNative (q : Str) :
+    issep .unix ((fromNativeSeparators q).getLastD NUL) = dirPatternU q := by
+  have h : ∀ (l : Str), (l.map sepMap).getLastD NUL = sepMap (l.getLastD NUL) := by
+    intro l
+    induction l with
+    | nil => decide
+    | cons c r ih =>
+      cases r with
+      | nil => rfl
+      | cons d r' => simpa [List.getLastD] using ih
+  simp only [fromNative_eq, h, issep, dirPatternU, sepMap_slash]
+  simp
+
+theorem char_cases (c : Char) :
+    c = '.' ∨ c = '/' ∨ c = '\\' ∨ (c ≠ '.' ∧ c ≠ '/' ∧ c ≠ '\\' ∧ sepMap c = c) := by
+  by_cases h1 : c = '.'
+  · exact Or.inl h1
+  · by_cases h2 : c = '/'
+    · exact Or.inr (Or.inl h2)
+    · by_cases h3 : c = '\\'
+      · exact Or.inr (Or.inr (Or.inl h3))
+      · exact Or.inr (Or.inr (Or.inr ⟨h1, h2, h3, by simp [sepMap, h3]⟩))
+
+theorem sepMap_dot' : sepMap '.' = '.' := by decide
+theorem sepMap_slash' : sepMap '/' = '/' := by decide
+theorem sepMap_bslash' : sepMap '\\' = '/' := by decide
+
+theorem isRelativePattern_fromNative (q : Str) : isRelativePattern (fromNativeSeparators q) = relativeU q := by
+  rw [fromNative_eq]
+  rcases q with _ | ⟨a, _ | ⟨b, _ | ⟨c, r⟩⟩⟩
+  · rfl
+  · rcases char_cases a with rfl | rfl | rfl | ⟨h1, h2, h3, h4⟩
+    · decide
+    · decide
+    · decide
+    · simp [isRelativePattern, relativeU, cat, isSepU, NUL, h1, h2, h3, h4]
+  · rcases char_cases a with rfl | rfl | rfl | ⟨h1, h2, h3, h4⟩ <;>
+      rcases char_cases b with rfl | rfl | rfl | ⟨g1, g2, g3, g4⟩ <;>
+      first
+        | decide
+        | simp [isRelativePattern, relativeU, cat, isSepU, NUL, sepMap_dot', sepMap_slash', sepMap_bslash', *]
+  · have hl2 : decide (r.length + 1 + 1 + 1 < 2) = false := by simp
+    have hl3 : decide (r.length + 1 + 1 + 1 < 3) = false := by simp
+    rcases char_cases a with rfl | rfl | rfl | ⟨h1, h2, h3, h4⟩ <;>
+      rcases char_cases b with rfl | rfl | rfl | ⟨g1, g2, g3, g4⟩ <;>
+      rcases char_cases c with rfl | rfl | rfl | ⟨k1, k2, k3, k4⟩ <;>
+      simp [isRelativePattern, relativeU, cat, isSepU, NUL, sepMap_dot', sepMap_slash', sepMap_bslash', hl2, hl3, *]
+
+theorem pathMatchSpec_normalized (mode : Filemode) (u path cwd : Str) :
+    PathMatchSpec .unix mode (normalizeIgnored u) path cwd ↔ UserIgnoreSpec mode u path cwd := by
+  unfold PathMatchSpec UserIgnoreSpec normalizeIgnored
+  generalize removeQuotationMarks u = q
+  have he : (fromNativeSeparators q ≠ []) ↔ q ≠ [] := by
+    cases q <;> simp [fromNativeSeparators]
+  have hdm : dirMismatch .unix mode (fromNativeSeparators q) = (dirPatternU q && mode != .directory) := by
+    simp only [dirMismatch, dirPattern_fromNative]
+  have hreal : isReal (fromNativeSeparators q) = (absoluteU q || relativeU q) := by
+    simp only [isReal, isAbsolute_fromNative, isRelativePattern_fromNative]
+  have hcan : canonPattern .unix (fromNativeSeparators q) cwd = canonPatternU q cwd := by
+    simp only [canonPattern, canonPatternU, isRelativePattern_fromNative]
+  simp only [he, hdm, hreal, hcan]
+
+theorem userIgnoreSpecB_iff (mode : Filemode) (u path cwd : Str) :
+    userIgnoreSpecB mode u path cwd = true ↔ UserIgnoreSpec mode u path cwd := by
+  simp only [userIgnoreSpecB, UserIgnoreSpec, Bool.and_eq_true, Bool.not_eq_true', List.isEmpty_eq_false_iff,
+    Bool.or_eq_true, beq_iff_eq, specMatchB_iff, ne_eq]
+
+/-- an absolute first string puts the iterator's input inside the documented domain -/
+theorem canonDomain_of_absolute (a b : Str) (h : isAbsolute a = true) :
+    CanonDomain (rawOf .unix a b).1 (rawOf .unix a b).2 = true := by
+  cases a with
+  | nil => simp [isAbsolute] at h
+  | cons c r =>
+    have hc : c = '/' := by simpa [isAbsolute] using h
+    subst hc
+    have hcs : cstr ('/' :: r) = '/' :: cstr r := by
+      simp [cstr, List.takeWhile_cons, NUL]
+    simp [CanonDomain, rawOf, hcs, rootLen, issep, cat, closedRoot, joinRaw, mapChar]
 
 end Cppcheck.FileLister
